@@ -20,9 +20,53 @@
     Status of each, see below. *)
 From Coq Require Import List NArith Bool.
 From XmlRs Require Import Base.CPred Model.Store Model.DomOps Proofs.DomTree Proofs.DomOpsInv
-  Proofs.DomL1NoPanic Proofs.DomL1Atomic.
+  Proofs.DomL1NoPanic Proofs.DomL1Atomic Proofs.DomL1Abs Proofs.DomL1Refine Proofs.DomExample Proofs.DomC12.
+From XmlRs Require Spec.DomCharData Spec.DomL1.
 Import ListNotations.
 Open Scope N_scope.
+
+(** ** refinement.  FULL STATEMENT (not proved in full):
+
+      step_refines : forall w o ao, WInv w -> abs_op o = Some ao ->
+        abs (fst (step w o)) = fst (DomL1.dom_step (abs w) ao)
+        /\ outcome_class (snd (step w o)) = snd (DomL1.dom_step (abs w) ao)      (= [refines_on w o ao])
+
+    with, where [dom_step] answers [AUnspecified] (reading R1), [DomL1.conforms] in place of the two
+    equations.  [abs : world -> adom] forgets order keys, the dirty flag and the serialisation-only
+    fields; [abs_op] forgets the parser facts and keeps the strings; [outcome_class] maps exceptions
+    to DOM codes ([InfoErr] -> [Refused]).
+
+    PROVED RUNGS (every receiver, argument, offset, count and string; reachable worlds):
+    - [C13_step_refines_partial_data]: set_data, append_data, insert_data, delete_data,
+      replace_data -- unconditional;
+    - [C13_step_refines_partial_remove]: remove_child, outside the finding class C13-LEAF-RM
+      ([KnownLeafRm]: the receiver is a Text / Comment / CDATASection / PI; the code answers
+      HIERARCHY_REQUEST_ERR, Level 1 NOT_FOUND_ERR; pinned by test_text_node_mut_remove_child_err2);
+    - [C13_step_refines_partial_factories]: create_text_node, create_comment,
+      create_cdata_section, create_document_fragment, outside D42 ([Known42]).
+    NOT PROVED: append_child / insert_before / replace_child (refuted on the Document cardinality
+    rule: finding C13-DOC-MOVE; otherwise they need the equivalence of the two ancestor walks),
+    the attribute calls, split_text, the PI calls and the factories that take names (they need
+    the agreement of the implementation's parser facts with the grammar of the specification).
+    Those are compared with the extracted [dom_step] on the implementation, call by call, by
+    checks/C13.py (the matrix of receiver kind x argument kind x position for every mutator and
+    random histories). *)
+Theorem C13_step_refines_partial_data : forall w o ao,
+  WInv w -> is_data_op o = true -> abs_op o = Some ao -> refines_on w o ao.
+Proof. exact step_refines_partial_data. Qed.
+
+Theorem C13_step_refines_partial_remove : forall w r x,
+  WInv w -> KnownLeafRm w (RemoveChild r x) = false -> refines_on w (RemoveChild r x) (DomL1.ARemoveChild r x).
+Proof. exact step_refines_partial_remove. Qed.
+
+Theorem C13_step_refines_partial_factories : forall w o ao,
+  WInv w -> is_text_factory o = true -> Known42 o = false -> abs_op o = Some ao -> refines_on w o ao.
+Proof. exact step_refines_partial_factories. Qed.
+
+(** the rungs along histories *)
+Theorem C13_data_refines_reachable : forall init ops o ao,
+  WInv init -> is_data_op o = true -> abs_op o = Some ao -> refines_on (run init ops) o ao.
+Proof. intros init ops o ao Hi. apply step_refines_partial_data. apply run_inv. exact Hi. Qed.
 
 (** ** no panic.  The full statement is REFUTED by the faithful model (defect D42, a listed
     finding: the three factories whose signature has no [Result] unwrap the validation result);
@@ -60,6 +104,29 @@ Theorem C13_failure_atomic_reachable : forall init ops o e,
   fst (step (run init ops) o) = run init ops.
 Proof. intros init ops o e Hi. apply failure_atomic_strict. apply run_inv. exact Hi. Qed.
 
+(** the hypotheses are satisfiable by a non-trivial world and calls: on <r><a x="1">t</a><b/></r>
+    (Proofs/DomExample.v), replace_data(0, 1, "]]>") on the text "t" is refused by both sides and
+    leaves the world unchanged; insert_data(1, "u") is done by both; remove_child(a, t) is done *)
+Definition dinf (s : str) : data_info := mkData s false false false None None.
+Example C13_example :
+  WInv ex_world
+  /\ snd (step ex_world (ReplaceData (0, 6) 0 1 (dinf [93; 93; 62]))) = Failed InfoErr
+  /\ snd (DomL1.dom_step (abs ex_world) (DomL1.AReplaceData (0, 6) 0 1 [93; 93; 62])) = DomL1.ARaised DomL1.Refused
+  /\ fst (step ex_world (ReplaceData (0, 6) 0 1 (dinf [93; 93; 62]))) = ex_world
+  /\ snd (step ex_world (InsertData (0, 6) 1 (dinf [117]))) = Ok RUnit
+  /\ option_map (fun s => data_of s 6) (doc_at (fst (step ex_world (InsertData (0, 6) 1 (dinf [117])))) 0) = Some [116; 117]
+  /\ KnownLeafRm ex_world (RemoveChild (0, 3) (0, 6)) = false
+  /\ snd (DomL1.dom_step (abs ex_world) (DomL1.ARemoveChild (0, 3) (0, 6))) = DomL1.ADone (DomL1.ANode (0, 6)).
+Proof.
+  split; [exact ex_world_inv|]. split; [vm_compute; reflexivity|]. split; [vm_compute; reflexivity|].
+  split; [apply (failure_atomic_strict ex_world (ReplaceData (0, 6) 0 1 (dinf [93; 93; 62])) InfoErr ex_world_inv eq_refl); vm_compute; reflexivity|].
+  repeat split; vm_compute; reflexivity.
+Qed.
+
+Print Assumptions C13_step_refines_partial_data.
+Print Assumptions C13_step_refines_partial_remove.
+Print Assumptions C13_step_refines_partial_factories.
+Print Assumptions C13_data_refines_reachable.
 Print Assumptions C13_step_no_panic_refuted.
 Print Assumptions C13_step_no_panic.
 Print Assumptions C13_run_no_panic.
